@@ -55,7 +55,7 @@ def judge(r, method, allow_negatives, consistent, viol, known, tags):
             if rec["A"].shape != A_ref.shape or np.abs(rec["A"] - A_ref).max() > 1e-12:
                 viol.append({"what": "augmented system recorded by the hook differs from [M 1; 1 0] built from the public matrix"})
                 return
-            if np.abs(rec["b"] - b_ref).max() > 5.1e-4:
+            if np.abs(rec["b"] - b_ref).max() > 5.6e-4:
                 viol.append({"what": "right-hand side recorded by the hook differs from the public velocity term by more than its rounding",
                              "detail": float(np.abs(rec["b"] - b_ref).max())})
                 return
